@@ -373,7 +373,7 @@ class PiecewiseConstantBirthDeath(Distribution):
             else:
                 log_p += (
                     (
-                        self.psi.log().gather(-1, indices_y)
+                        self.psi.gather(-1, indices_y).log()
                         - self.log_q(
                             A.gather(-1, indices_y),
                             B.gather(-1, indices_y),
